@@ -458,7 +458,7 @@ func C15(tier string) int {
 		strLen = 5
 	}
 	alpha := []byte{'\r', '\n', 0, ' ', '<', '>', 'a'}
-	run.Rule = fmt.Sprintf("(a) ALL 2^7 subsets of advertised extensions %v x ALL 2^6 subsets of MailOptions fields (Auth as an identity and as the empty string) (and 2^3 of RcptOptions) against a scripted server, judged after the first EHLO and after a second EHLO (Reset) that advertises a different subset (complement and shifted subsets), and against a server that refuses EHLO so that the client falls back to HELO (before or after a normal EHLO); (b) ALL strings of <=%d octets over {CR,LF,NUL,SP,'<','>','a'} in every string-typed argument (Hello, Verify, Mail from, Rcpt to, EnvelopeID, Auth, ORCPT rfc822/utf-8, SASL mechanism name, NOTIFY elements alone and around valid keywords), the hostile octets also 1990..5000 octets into a value and behind IPv6 zones / address literals; Verify/Mail also as the very first call on the client (nothing, not even the greeting, may be written for a value with CR/LF). Octets written by each call are taken from the raw connection log. Distinct by construction; non-trivial = a parameter is requested that is not offered / the string contains CR, LF or NUL. Oracle: <=1 CRLF-terminated line per call and no bare CR/LF; CR/LF in an argument => local error, zero octets; every parameter on the wire is in the most recent EHLO reply; REQUIRETLS/SMTPUTF8 requested but not offered => local error.", c15Exts, strLen)
+	run.Rule = fmt.Sprintf("(a) ALL 2^7 subsets of advertised extensions %v x ALL 2^6 subsets of MailOptions fields (Auth as an identity and as the empty string) (and 2^3 of RcptOptions) against a scripted server, judged after the first EHLO and after a second EHLO (Reset) that advertises a different subset (complement and shifted subsets), and against a server that refuses EHLO so that the client falls back to HELO (before or after a normal EHLO); (b) ALL strings of <=%d octets over {CR,LF,NUL,SP,'<','>','a'} in every string-typed argument (Hello, Verify, Mail from, Rcpt to, EnvelopeID, Auth, ORCPT rfc822/utf-8, SASL mechanism name, NOTIFY elements alone and around valid keywords), the hostile octets also 1990..5000 octets into a value and behind IPv6 zones / address literals; Verify/Mail also as the very first call on the client (nothing, not even the greeting, may be written for a value with CR/LF). AUTH against a server that answers 0..3 lines of the exchange and then falls silent (CommandTimeout on the virtual clock): no line is written without an answer in between. Octets written by each call are taken from the raw connection log. Distinct by construction; non-trivial = a parameter is requested that is not offered / the string contains CR, LF or NUL. Oracle: <=1 CRLF-terminated line per call and no bare CR/LF; CR/LF in an argument => local error, zero octets; every parameter on the wire is in the most recent EHLO reply; REQUIRETLS/SMTPUTF8 requested but not offered => local error.", c15Exts, strLen)
 	var ecases []C15ExtCase
 	for m1 := 0; m1 < 128; m1++ {
 		for opts := 0; opts < 64; opts++ {
@@ -533,8 +533,84 @@ func C15(tier string) int {
 		}
 	})
 	run.Outcome("strings-ok")
+	for after := 0; after <= 3; after++ {
+		c := C15AuthSilenceCase{After: after}
+		f := evalC15AuthSilence(c)
+		run.Eval(true)
+		if f != nil {
+			run.Violate("c15-auth-silence", c, f, func() *h.Finding { return evalC15AuthSilence(c) })
+			run.Outcome("violation:" + f.Sig)
+		}
+	}
+	// the connection ends or falls silent in the middle of an answer (checks/c17.go)
+	run.Rule += clientFaultRule
+	clientFaultFamily(run, "C15")
 	// histories of client calls (explicit-state search, checks/clientbfs.go)
 	run.Rule += clientSearchRule
 	clientSearch(run, "C15", 0)
 	return run.Finish()
 }
+
+// ---- AUTH: the server falls silent in the middle of the exchange ------------------------------------------------------
+
+type c15TwoStep struct{}
+
+func (c15TwoStep) Start() (string, []byte, error)   { return "TWOSTEP", nil, nil }
+func (c15TwoStep) Next(ch []byte) ([]byte, error) { return []byte("answer to " + string(ch)), nil }
+
+type C15AuthSilenceCase struct {
+	After int `json:"after"` // the server answers that many lines of the exchange (334 each) and then nothing any more
+}
+
+// evalC15AuthSilence: the server stops answering in the middle of a SASL exchange; CommandTimeout expires on the
+// virtual clock. Every line the client has written was either answered or is the one it is waiting for: at most one
+// line per protocol step, also on the way out.
+func evalC15AuthSilence(c C15AuthSilenceCase) *h.Finding {
+	var lines []string
+	var err error
+	auths := 0
+	script := func(line string, n int) []byte {
+		up := strings.ToUpper(line)
+		switch {
+		case strings.HasPrefix(up, "EHLO"):
+			return []byte("250-fake.example\r\n250 AUTH TWOSTEP\r\n")
+		case strings.HasPrefix(up, "QUIT"):
+			return []byte("221 2.0.0 bye\r\n")
+		}
+		auths++
+		if auths <= c.After {
+			return []byte("334 Y2hhbA==\r\n")
+		}
+		return []byte{}
+	}
+	leak, pan := h.Bubble(func() {
+		h.WithScriptedServer("220 fake.example ready\r\n", script, false, func(cs *h.CS) {
+			err = cs.Client.Auth(c15TwoStep{})
+			h.Wait()
+		}, &lines)
+	})
+	desc := fmt.Sprintf("AUTH with a mechanism that answers every challenge; the server answers %d line(s) of the exchange with 334 and then falls silent", c.After)
+	if pan != "" {
+		return h.F("c15-harness-panic", "%s: %s", desc, pan)
+	}
+	if leak != "" {
+		return h.F("c15-deadlock", "%s: %.200s", desc, leak)
+	}
+	if err == nil {
+		return h.F("c15-auth-silence-nil", "%s: Auth returned nil", desc)
+	}
+	// lines: EHLO, then the exchange: After answered lines + the one the client is waiting for
+	want := 1 + c.After + 1
+	n := 0
+	for _, l := range lines {
+		if !strings.HasPrefix(strings.ToUpper(l), "QUIT") {
+			n++
+		}
+	}
+	if n > want {
+		return h.F("c15-line-without-answer", "%s: the client wrote %d lines (%q): %d were answered, one is the line it was waiting on - the rest were written without any answer in between", desc, n, lines, c.After+1)
+	}
+	return nil
+}
+
+func init() { h.RegisterReplayer("c15-auth-silence", evalC15AuthSilence) }
